@@ -16,10 +16,10 @@ res=""
 res="$res clean_demo_exit=$c"
 git -C "$WT" apply "$D/patch.diff" || { echo "patch does not apply"; exit 2; }
 ( cd "$WT" && go build ./... ) || { echo "does not compile"; exit 2; }
-fails=$(cd "$WT" && go test -count=1 ./... 2>&1 | grep -E '^--- FAIL' | sort | tr '\n' ' ')
+fails=$(cd "$WT" && go test -count=1 ./... 2>&1 | grep -E '^--- FAIL' | sed 's/ ([0-9.]*s)//' | sort | tr '\n' ' ')
 res="$res tests_failing=[$fails]"
 ( cd "$D" && MOQ_SRC="$WT" bash ./demo.sh >"$WT.patched.log" 2>&1 ); p=$?
 res="$res patched_demo_exit=$p"
 echo "$res"
-if [ "$c" = 0 ] && [ "$p" != 0 ] && [ "$fails" = "--- FAIL: TestGoGenerateVendoredPackages (0.01s) " -o "$fails" = "--- FAIL: TestGoGenerateVendoredPackages (0.00s) " -o "$fails" = "--- FAIL: TestGoGenerateVendoredPackages (0.02s) " ]; then echo CONFIRMED; exit 0; fi
+if [ "$c" = 0 ] && [ "$p" != 0 ] && [ "$fails" = "--- FAIL: TestGoGenerateVendoredPackages " ]; then echo CONFIRMED; exit 0; fi
 echo NOT-CONFIRMED; exit 1
